@@ -44,8 +44,36 @@ class Summaries:
         self._register()
 
     # ------------------------------------------------------------------
+    # ordered maps / sets: for everything the properties speak about (membership, lookup, insertion, removal,
+    # per-element iteration) `BTreeMap` / `BTreeSet` behave as `HashMap` / `HashSet`; their calls are decided by
+    # the same summaries (methods only the ordered ones have - range, first_key_value, .. - keep their own name
+    # and fall to the generic model)
+    BTREE_RX = None
+
+    @staticmethod
+    def norm_btree(name):
+        if 'BTree' not in name and 'btree_' not in name:
+            return name
+        n = name
+        n = n.replace('std::collections::BTreeMap::<K, V, A>::', 'std::collections::HashMap::<K, V, S, A>::')
+        n = n.replace('std::collections::BTreeMap::<K, V>::', 'std::collections::HashMap::<K, V>::')
+        n = n.replace('std::collections::BTreeSet::<T, A>::', 'std::collections::HashSet::<T, S, A>::')
+        n = n.replace('std::collections::BTreeSet::<T>::', 'std::collections::HashSet::<T>::')
+        n = n.replace('std::collections::BTreeMap<K, V, A>', 'std::collections::HashMap<K, V, S, A>')
+        n = n.replace('std::collections::BTreeSet<T, A>', 'std::collections::HashSet<T, S, A>')
+        n = n.replace('std::collections::BTreeMap<K, V>', 'std::collections::HashMap<K, V>')
+        n = n.replace('std::collections::BTreeSet<T>', 'std::collections::HashSet<T>')
+        n = n.replace("std::collections::btree_map::Entry::<'a, K, V, A>::", "std::collections::hash_map::Entry::<'a, K, V>::")
+        n = n.replace('std::collections::btree_map::', 'std::collections::hash_map::').replace('std::collections::btree_set::', 'std::collections::hash_set::')
+        return n
+
     def apply(self, ctx):
         name = ctx.callee or '<indirect>'
+        if 'BTree' in name or 'btree_' in name:
+            n2 = self.norm_btree(name)
+            if n2 != name and (n2 in self.table or any(rx.search(n2) for rx, _g in self.patterns)):
+                name = n2
+                ctx.callee = n2
         f = self.table.get(name)
         if f is None:
             for rx, g in self.patterns:
@@ -333,8 +361,8 @@ class Summaries:
                 return _results(ctx.st, f_some(ctx.st, pay))
             s2 = ctx.st.fork()
             if o.eid is not None:
-                ctx.st.vn[('tagof', o.eid)] = 1
-                s2.vn[('tagof', o.eid)] = 0
+                eng.decide_tag(ctx.st, o.eid, 1)
+                eng.decide_tag(s2, o.eid, 0)
             return _results(ctx.st, f_some(ctx.st, pay)) + _results(s2, f_none(s2, None))
 
         def _results(st, r):
@@ -1349,8 +1377,11 @@ class Summaries:
                     first = True
             res = iter_elem(ctx, ctx.st, it, first=first)
             res2 = []
+            cpos = ctx.st.vn.get(('charpos', it.iid), 0) if it.kind == 'chars' and not it.ops else None
             for (s, v) in res:
                 s.vn[('iterpos', it.iid)] = 'advanced'
+                if cpos is not None:
+                    s.vn[('charpos', it.iid)] = cpos + 1       # characters consumed from the front (for `as_str`)
                 if v is not None and it.kind == 'coll':
                     ev_ = v
                     hops_ = 0
@@ -1400,6 +1431,27 @@ class Summaries:
                         return opt_result(ctx, apply_ops(ctx, it, [(st, x)]))
                     return opt_result(ctx, [(st, None)])
             return None
+
+        @regx(r"^(std|core)::str::Chars::<'a>::as_str$")
+        def _(ctx):
+            # what is left of the string: the string without the characters taken from the front so far,
+            # i.e. what `s.chars().skip(n).collect::<String>()` is - built by that very summary
+            it = deref1(ctx, ctx.args[0])
+            if isinstance(it, IterV) and it.kind == 'chars' and not it.ops and isinstance(it.args[0], StrV):
+                n = ctx.st.vn.get(('charpos', it.iid), 0)
+                src = it.args[0]
+                if ctx.st.vn.get(('iterpos', it.iid)) in (None, 'advanced') or isinstance(ctx.st.vn.get(('iterpos', it.iid)), int):
+                    if isinstance(ctx.st.vn.get(('iterpos', it.iid)), int):
+                        n = ctx.st.vn[('iterpos', it.iid)]
+                    if n == 0:
+                        return src
+                    if src.known is not None:
+                        return StrV(src.known[n:], prov=('collect',))
+                    it2 = IterV('chars', it.ty, (src,), ops=(('skip', NumV(None, n, 'usize')),), iid=next(_c))
+                    c2 = type(ctx)(ctx.eng, ctx.st, ctx.fr, ctx.bi, dict(ctx.t, dest=dict(ctx.t['dest'], ty='std::string::String')), ctx.fn,
+                                   'std::iter::Iterator::collect', [it2], ctx.depth)
+                    return self.table['std::iter::Iterator::collect'](c2)
+            return StrV(None, oid=next(_c), prov=('chars-rest',))
 
         @reg('std::iter::Iterator::nth')
         def _(ctx):
@@ -1878,6 +1930,16 @@ class Summaries:
                 return out_
             return fork_opt(ctx, ctx.args[0], dflt, lambda s, p: p)
 
+        @regx(r'^(std|core)::convert::num::<impl (std|core)::convert::From<(u8|u16|u32|u64|usize|i8|i16|i32|i64|isize|bool)> for (u8|u16|u32|u64|u128|usize|i8|i16|i32|i64|i128|isize)>::from$')
+        def _(ctx):
+            # lossless widening (`u64::from(x)`): the same number in the wider type
+            v = deref(ctx, ctx.args[0]) if isinstance(ctx.args[0], RefV) else ctx.args[0]
+            if isinstance(v, NumV):
+                return NumV(v.sym, v.k, ctx.ret_ty)
+            if isinstance(v, BoolV) and v.val is not None:
+                return NumV(None, 1 if v.val else 0, ctx.ret_ty)
+            return eng.mk_default(ctx.st, ctx.ret_ty)
+
         @regx(r'^(std|core)::convert::num::(ptr_try_from_impls::)?<impl (std|core)::convert::TryFrom<(\w+)> for (\w+)>::try_from$')
         def _(ctx):
             # checked integer conversion: Ok(the same number) exactly when it fits the target type
@@ -2112,8 +2174,8 @@ class Summaries:
                     return _results(ctx.st, f_ok(ctx.st, a))
                 if dec == 1:
                     return _results(ctx.st, f_err(ctx.st, b))
-                ctx.st.vn[('tagof', o.eid)] = 0
-                s2.vn[('tagof', o.eid)] = 1
+                eng.decide_tag(ctx.st, o.eid, 0)
+                eng.decide_tag(s2, o.eid, 1)
             return _results(ctx.st, f_ok(ctx.st, a)) + _results(s2, f_err(s2, b))
 
         def ok_v(rty, v):
@@ -3008,7 +3070,7 @@ class Summaries:
         def _(ctx):
             rty = ctx.ret_ty
             head, _a = split_generic(rty)
-            kind = {'std::vec::Vec': 'vec', 'std::collections::HashSet': 'set'}.get(head, 'map')
+            kind = {'std::vec::Vec': 'vec', 'std::collections::HashSet': 'set', 'std::collections::BTreeSet': 'set'}.get(head, 'map')
             return CollV(kind, rty, next(_c), length=NumV(None, 0, 'usize'), known=(), prov=('new', ctx.fr.func if ctx.fr else None))
 
         def log(ctx, *ev):
@@ -3033,10 +3095,31 @@ class Summaries:
                 kn = [kv for kv in c.known if not (_is_const(kv[0]) and kv[0].key() == k.key())]
                 kn.append((k, v))
                 known = tuple(kn)
+            # what the map held under k before: Some(old value) / None, decided lazily (most callers drop it)
+            rty = ctx.ret_ty
+            was = ctx.st.vn.get(('fact', ('contains', c.key(), k.key()))) if isinstance(k, V) else None
+            hit = map_lookup(ctx, c, k)
+            ety = elem_type(c.ty, 'map')
             nc = bump(ctx, path, c, known=known, length=None)
             # the key is present from now on (until the map changes again)
             carry_contains(ctx, c, nc, k, True)
-            return OpaqueV(ctx.ret_ty, next(_c))
+            if hit is not None:
+                return none(rty) if hit == ('absent',) else some(rty, hit)
+            if not rty.startswith('std::option::Option'):
+                return OpaqueV(rty, next(_c))
+            old = eng.mk_default(ctx.st, ety)
+            if isinstance(old, CollV):
+                old = old.evolve(prov=('removed', spath(path), k))
+            elif isinstance(old, StructV):
+                old = StructV(old.ty, old.fields, prov=('removed', spath(path), k))
+            if was is True:
+                return some(rty, old)
+            if was is False:
+                return none(rty)
+            res = EnumV(rty, {0, 1}, {1: StructV('Some', {'0': old})})
+            if isinstance(k, V):
+                ctx.st.vn[('ondecide', res.eid)] = ('map.insert', spath(path), k, ctx.t['span'].get('line'), ctx.fr.func if ctx.fr else None, c.key())
+            return res
 
         def _is_const(v):
             return (isinstance(v, NumV) and v.sym is None) or (isinstance(v, StrV) and v.known is not None) or \
@@ -3196,7 +3279,7 @@ class Summaries:
             """[(state, value)] of `<ty as Default>::default()`"""
             head, _a = split_generic(ty)
             kind = {'std::vec::Vec': 'vec', 'std::collections::HashSet': 'set', 'std::collections::HashMap': 'map',
-                    'std::collections::BTreeMap': 'map'}.get(head)
+                    'std::collections::BTreeMap': 'map', 'std::collections::BTreeSet': 'set'}.get(head)
             if kind is not None:
                 return [(st, CollV(kind, ty, next(_c), length=NumV(None, 0, 'usize'), known=(), prov=('new', ctx.fr.func if ctx.fr else None)))]
             if is_str(ty):
@@ -3251,7 +3334,7 @@ class Summaries:
             src = deref1(ctx, ctx.args[0])
             rty = ctx.ret_ty
             head, _a = split_generic(rty)
-            kind = {'std::vec::Vec': 'vec', 'std::collections::HashSet': 'set'}.get(head, 'map')
+            kind = {'std::vec::Vec': 'vec', 'std::collections::HashSet': 'set', 'std::collections::BTreeSet': 'set'}.get(head, 'map')
             if isinstance(src, CollV) and src.known is not None:
                 kn = build_known(kind, list(src.known))
                 if kn is not None:
